@@ -2,13 +2,16 @@ import Driver.Common
 import Driver.ObjFmt
 import Parsley.Model.Obj
 import Parsley.Spec.Spelling
+import Parsley.Spec.SpellingWF
 namespace Driver.C02
 open Parsley Parsley.Prim Parsley.Obj Parsley.Spelling Driver
 
 /-- cases:
     `sp <d> <hex> <len> <lead> <expected sexp…>`  a spelling (+context) of a value: must parse to it
     `dup <d> <hex>`                                a dictionary repeating a non-null key: must be rejected
-    `mut <d> <hex>`                                a mutated spelling: correspondence only -/
+    `mut <d> <hex>`                                a mutated spelling: correspondence only
+    `genbad <d> <hex>`                             the generator left the domain `wfDeep` of the encoder theorem
+                                                   (Props/C02Encoder.lean): always judged `bad` -/
 def model (line : String) : String :=
   match words line with
   | _ :: d :: hex :: _ =>
@@ -31,6 +34,7 @@ def judge (case impl : String) : String :=
     else "bad panic-or-crash"
   | "dup" :: _ =>
     if impl.startsWith "err" then "ok" else if impl.startsWith "ok" then "bad duplicate-key-accepted" else "bad panic-or-crash"
+  | "genbad" :: _ => "bad generator-outside-domain"
   | "mut" :: _ =>
     if impl.startsWith "panic" || impl.startsWith "crash" then "bad panic-or-crash"
     else if impl.startsWith "ok" && sexpHasNullEntry impl then
@@ -128,14 +132,27 @@ def shuffleKvs : List (Bytes × Obj) → Rng → List (Bytes × Obj) × Rng
   | (k, v) :: t, r => let (y, r) := shuffleObj v r; let (u, r) := shuffleKvs t r; ((k, y) :: u, r)
 end
 
-def contexts : List Bytes :=
-  [[], bs "]", bs ">>", bs " endobj", bs "\nendstream", bs "/Next", bs "(x)", bs "<", bs " 2 R", bs " R", bs "%c",
-   bs "\r\n", bs " 7", bs "[", bs "\x00x"]
+/-- the following contexts: `genContexts` of Spec/SpellingWF.lean (each proved to satisfy `Follows`:
+    `genContexts_follow`) -/
+def contexts : List Bytes := genContexts
 
 def rndChoices (r : Rng) (n : Nat) : Ch × Rng :=
   (List.range n).foldl (fun (acc : Ch × Rng) _ => let (x, r) := acc.2.nat 1000; (x :: acc.1, r)) ([], r)
 
 def isInt : Obj → Bool | .int _ => true | _ => false
+
+/-- is the (shuffled) value handed to the encoder inside the domain of `spell_parse_encoder_canon`
+    (`wfDeep`), does it denote the expected value (`canon sv = v`, compared as s-expressions), is the
+    expected value in sorted form, and does the depth bound of the case leave room for it? -/
+def inDomain (v sv : Obj) (d : Nat) : Bool :=
+  wfDeep sv && sortedDeep v && objSexp (canon sv) == objSexp v && depth sv ≤ d
+
+/-- executed check over the generator: the first `n` values of seed `seed` are in the domain -/
+def genDomainOK (seed n : Nat) : Bool :=
+  ((List.range n).foldl (fun (acc : Bool × Rng) _ =>
+    let (v, r1) := rndObj 4 acc.2
+    let (sv, r2) := shuffleObj v r1
+    (acc.1 && inDomain v sv (depth v), r2)) (true, Rng.mk' seed)).1
 
 def gen (seed n : Nat) (_tier : String) (emit : String → IO Unit) : IO Unit := do
   let mut r := Rng.mk' seed
@@ -146,12 +163,14 @@ def gen (seed n : Nat) (_tier : String) (emit : String → IO Unit) : IO Unit :=
     let (body, _) := spell sv ch
     let (lead, r4) := (fun (r : Rng) => let (k, r) := r.nat 3; let (c, r) := rndChoices r 6; ((wsRun k c).1, r)) r3
     let (ctx, r5) := r4.pick contexts
-    let ctx := if isInt v && (ctx == bs " 2 R") then bs " 2 RG" else ctx
+    let ctx := genContextFor (isInt v) ctx
     let (extra, r6) := r5.nat 3
     r := r6
     let d := depth v + extra
     let sp := lead ++ body
     emit s!"sp {d} {hexOfBytes (sp ++ ctx)} {sp.length} {lead.length} {objSexp v}"
+    -- the value must lie in the domain of the encoder theorem; otherwise the case is reported
+    if !inDomain v sv d then emit s!"genbad {d} {hexOfBytes (sp ++ ctx)}"
     -- a single-byte mutation / truncation of the same spelling (correspondence + no-panic + no-null-entry)
     let (mk, r7) := r.nat 3
     let (pos, r8) := r7.nat (sp.length + 1)
@@ -178,6 +197,12 @@ def nontrivial (line : String) : Bool :=
   | "dup" :: _ => true
   | "mut" :: _ :: hex :: _ => hex.length ≥ 8
   | _ => false
+
+-- executed at build time: 400 generated values (two seeds) are in the domain `wfDeep` of the
+-- encoder theorem and denote the expected value
+#eval show IO Unit from do
+  unless genDomainOK 1 200 && genDomainOK 20260930 200 do
+    throw (IO.userError "C02 generator: a generated value is outside wfDeep / canon sv ≠ v")
 
 def driver : PropDriver := { gen, model, judge, nontrivial }
 end Driver.C02
